@@ -53,6 +53,7 @@ func seqStep(fixedClock bool) {
 	sx.Assert(err == nil, "setup-template")
 	sx.Assert(ep.VerifSeq() == s0, "template-does-not-advance")
 
+	dataSet := entities.NewSet(false)
 	steps := 1
 	if sx.Tier() > 0 {
 		steps = 3
@@ -84,13 +85,23 @@ func seqStep(fixedClock bool) {
 			sx.Reach("refresh")
 			continue
 		}
+		// the connection may accept only part of one Write without an error: the
+		// send is then either refused (a failed attempt, outside the statement) or
+		// completed - and if it reports success the count and the bytes must be right
+		short := sx.Choose("connectionAcceptsPartOfTheWrite", 2) == 1
+		if short {
+			conn.ShortBy = 5
+		}
 		if isData {
 			r := sx.Range("records", 0, 3)
 			recs := make([][]common.Val, r)
 			for j := range recs {
 				recs[j] = []common.Val{common.Draw(common.KU32, "v", 0), common.Draw(common.KString, "s", 1)}
 			}
-			n, err = ep.SendSet(common.DataSet(tplID, recs))
+			// the application reuses one set object for all its data sets (ResetSet,
+			// PrepareSet, AddRecord), as exporters do
+			dataSet.ResetSet()
+			n, err = ep.SendSet(common.FillDataSet(dataSet, tplID, recs))
 			expected += uint32(r)
 			sx.Reach("data")
 		} else {
@@ -106,9 +117,21 @@ func seqStep(fixedClock bool) {
 			sx.Reach("template")
 		}
 		t1 := time.Now()
+		conn.ShortBy = 0
+		if short && err != nil {
+			sx.Reach("partial-write-refused")
+			return
+		}
 		sx.Assert(err == nil, "send-ok")
-		sx.Assert(len(conn.Writes) == before+1, "exactly-one-message")
-		w := conn.Writes[before]
+		var w []byte
+		if short {
+			for _, x := range conn.Writes[before:] {
+				w = append(w, x...)
+			}
+		} else {
+			sx.Assert(len(conn.Writes) == before+1, "exactly-one-message")
+			w = conn.Writes[before]
+		}
 		sx.Assert(n == len(w), "byte-count-is-bytes-written")
 		sx.Assert(int(ref.GetU16(w, 2)) == len(w), "header-length-is-bytes-written")
 		sx.Assert(ref.GetU16(w, 0) == 10, "version")
@@ -121,6 +144,47 @@ func seqStep(fixedClock bool) {
 	if s0 > 0xfffffffa {
 		sx.Reach("near-wrap")
 	}
+}
+
+// Check_ConfiguredDomain: the real InitExportingProcess (its connection is the
+// environment's: net.Dial returns the harness's in-memory connection), any
+// configured observation domain - 0 and 0xffffffff included -, both plain
+// transports: every message carries exactly the configured domain, and the
+// bookkeeping starts at sequence number 0.
+func Check_ConfiguredDomain() {
+	domain := sx.U32("domain")
+	proto := []string{"tcp", "udp"}[sx.Choose("protocol", 2)]
+	conn := &common.FakeConn{}
+	sx.RegisterConn(conn)
+	ep, err := exporter.InitExportingProcess(exporter.ExporterInput{
+		CollectorAddress: "10.0.0.9:4739", CollectorProtocol: proto, ObservationDomainID: domain,
+	})
+	sx.Assert(err == nil, "init")
+	kinds := []common.Kind{common.KU32, common.KString}
+	const tplID = 400
+	_, err = ep.SendSet(common.TemplateSet(tplID, kinds))
+	sx.Assert(err == nil, "template")
+	r := sx.Range("records", 1, 2)
+	recs := make([][]common.Val, r)
+	for j := range recs {
+		recs[j] = []common.Val{common.Draw(common.KU32, "v", 0), common.Draw(common.KString, "s", 1)}
+	}
+	n, err := ep.SendSet(common.DataSet(tplID, recs))
+	sx.Assert(err == nil, "data")
+	sx.Assert(len(conn.Writes) == 2, "two-messages")
+	for i, w := range conn.Writes {
+		sx.Assert(sx.And(ref.GetU16(w, 0) == 10, int(ref.GetU16(w, 2)) == len(w)), "header")
+		sx.Assert(ref.GetU32(w, 12) == domain, "message-does-not-carry-the-configured-observation-domain")
+		want := uint32(0)
+		if i == 1 {
+			want = uint32(r)
+		}
+		sx.Assert(ref.GetU32(w, 8) == want, "sequence-number-from-zero")
+	}
+	sx.Assert(n == len(conn.Writes[1]), "byte-count")
+	ep.CloseConnToCollector()
+	sx.Assert(conn.Closed >= 1, "closed")
+	sx.Reach("configured-domain")
 }
 
 var Table = map[string]runner.Entry{
